@@ -1,6 +1,7 @@
 SPECIFICATION Spec
 CONSTANT Names = {"a", "b"}
 CONSTANT Models = {"m1", "m2"}
+CONSTANT Rename = FALSE
 CONSTANT Overwrite = FALSE
 CONSTANT MaxSaves = 3
 INVARIANT RoundTrip
